@@ -274,3 +274,135 @@ theorem snake_letters_preserved (id : Bytes) :
   exact intercalate_fold [95] _
 
 end Strum
+
+namespace Strum
+
+/-! ### separators are clean: splitting the renamed identifier at the separator gives back the cased words -/
+
+theorem splitNonAlnum_alnum (s : Bytes) : ∀ cur : Bytes, (∀ c ∈ cur, isAlnum c = true) →
+    ∀ seg ∈ splitNonAlnum cur s, ∀ c ∈ seg, isAlnum c = true := by
+  induction s with
+  | nil => intro cur hc seg hs; simp [splitNonAlnum] at hs; subst hs; exact hc
+  | cons x xs ih =>
+    intro cur hc seg hs
+    simp only [splitNonAlnum] at hs
+    split at hs
+    · next hx =>
+      exact ih (cur ++ [x]) (by intro c hcm; simp at hcm; rcases hcm with h | h; exact hc c h; subst h; exact hx) seg hs
+    · simp only [List.mem_cons] at hs
+      rcases hs with rfl | hs
+      · exact hc
+      · exact ih [] (by simp) seg hs
+
+theorem specGo_alnum (rest : Bytes) : ∀ (p : Option Nat) (cur : Bytes),
+    (∀ c ∈ cur, isAlnum c = true) → (∀ c ∈ rest, isAlnum c = true) →
+    ∀ w ∈ specGo p cur rest, ∀ c ∈ w, isAlnum c = true := by
+  induction rest with
+  | nil =>
+    intro p cur hc _ w hw
+    simp only [specGo] at hw
+    split at hw
+    · simp at hw
+    · simp only [List.mem_singleton] at hw; subst hw; exact hc
+  | cons x xs ih =>
+    intro p cur hc hr w hw
+    rw [specGo_cons] at hw
+    have hx : isAlnum x = true := hr x (by simp)
+    have hxs : ∀ c ∈ xs, isAlnum c = true := fun c h => hr c (by simp [h])
+    split at hw
+    · simp only [List.mem_cons] at hw
+      rcases hw with rfl | hw
+      · exact hc
+      · exact ih _ [x] (by simp [hx]) hxs w hw
+    · exact ih _ (cur ++ [x]) (by intro c hcm; simp at hcm; rcases hcm with h | h; exact hc c h; subst h; exact hx) hxs w hw
+
+/-- every character of every word is a letter or a digit -/
+theorem specWords_alnum (id : Bytes) : ∀ w ∈ specWords id, ∀ c ∈ w, isAlnum c = true := by
+  intro w hw
+  unfold specWords at hw
+  simp only [List.mem_flatMap] at hw
+  obtain ⟨seg, hseg, hws⟩ := hw
+  exact specGo_alnum seg none [] (by simp) (splitNonAlnum_alnum id [] (by simp) seg hseg) w hws
+
+/-- split at one separator byte -/
+def splitSep (sep : Nat) : Bytes → Bytes → List Bytes
+  | cur, [] => [cur]
+  | cur, c :: cs => if c = sep then cur :: splitSep sep [] cs else splitSep sep (cur ++ [c]) cs
+
+theorem splitSep_prefix (sep : Nat) (w : Bytes) (hw : ∀ c ∈ w, c ≠ sep) (cur rest : Bytes) :
+    splitSep sep cur (w ++ rest) = splitSep sep (cur ++ w) rest := by
+  induction w generalizing cur with
+  | nil => simp
+  | cons x xs ih =>
+    have hx := hw x (by simp)
+    simp only [List.cons_append, splitSep, hx, ↓reduceIte]
+    rw [ih (fun c hc => hw c (by simp [hc]))]
+    simp
+
+/-- joining with a separator that occurs in no word, then splitting at it, is the identity on non-empty word lists -/
+theorem splitSep_intercalate (sep : Nat) (ws : List Bytes) (hne : ws ≠ []) (hw : ∀ w ∈ ws, ∀ c ∈ w, c ≠ sep) :
+    splitSep sep [] (intercalateBytes [sep] ws) = ws := by
+  induction ws with
+  | nil => exact absurd rfl hne
+  | cons w rest ih =>
+    cases rest with
+    | nil =>
+      simp only [intercalateBytes]
+      have := splitSep_prefix sep w (hw w (by simp)) [] []
+      simp only [List.append_nil, List.nil_append] at this
+      rw [this]; rfl
+    | cons w2 rest2 =>
+      simp only [intercalateBytes, List.append_assoc]
+      rw [splitSep_prefix sep w (hw w (by simp)) [] _]
+      simp only [List.nil_append, List.cons_append, splitSep, ↓reduceIte]
+      rw [ih (by simp) (fun u hu => hw u (by simp [hu]))]
+
+theorem alnum_ne_sep (c : Nat) (h : isAlnum c = true) : c ≠ 95 ∧ c ≠ 45 ∧ c ≠ 32 := by
+  unfold isAlnum isLetter isUpper isLower isDigit at h
+  simp at h
+  omega
+
+theorem asciiLower_alnum (b : Nat) (h : isAlnum b = true) : isAlnum (asciiLower b) = true := by
+  unfold isAlnum isLetter isUpper isLower isDigit at h
+  simp only [Bool.or_eq_true, Bool.and_eq_true, decide_eq_true_eq] at h
+  by_cases hu : (65 ≤ b ∧ b ≤ 90)
+  · have : asciiLower b = b + 32 := by simp [asciiLower, isUpper, hu]
+    rw [this]
+    unfold isAlnum isLetter isUpper isLower isDigit
+    simp only [Bool.or_eq_true, Bool.and_eq_true, decide_eq_true_eq]
+    omega
+  · have : asciiLower b = b := by simp [asciiLower, isUpper, hu]
+    rw [this]
+    unfold isAlnum isLetter isUpper isLower isDigit
+    simp only [Bool.or_eq_true, Bool.and_eq_true, decide_eq_true_eq]
+    omega
+
+theorem lowerAll_alnum (w : Bytes) (h : ∀ c ∈ w, isAlnum c = true) : ∀ c ∈ lowerAll w, isAlnum c = true := by
+  intro c hc
+  simp only [lowerAll, List.mem_map] at hc
+  obtain ⟨b, hb, rfl⟩ := hc
+  exact asciiLower_alnum b (h b hb)
+
+/-- **snake_case has no leading, trailing or doubled `_`**: splitting at `_` returns exactly the lower-cased
+    words, each of them non-empty. -/
+theorem snake_separators_clean (id : Bytes) (hne : specWords id ≠ []) :
+    splitSep 95 [] (convertCase (some .snake) id) = (specWords id).map lowerAll ∧
+    ∀ w ∈ (specWords id).map lowerAll, w ≠ [] := by
+  rw [convert_case_spec]
+  simp only [styleSpec]
+  refine ⟨?_, ?_⟩
+  · apply splitSep_intercalate
+    · simpa using hne
+    · intro w hw c hc
+      simp only [List.mem_map] at hw
+      obtain ⟨u, hu, rfl⟩ := hw
+      exact (alnum_ne_sep c (lowerAll_alnum u (specWords_alnum id u hu) c hc)).1
+  · intro w hw
+    simp only [List.mem_map] at hw
+    obtain ⟨u, hu, rfl⟩ := hw
+    have := specWords_nonempty id u hu
+    cases u with
+    | nil => exact absurd rfl this
+    | cons a as => simp [lowerAll]
+
+end Strum
